@@ -34,8 +34,9 @@ sys.path.insert(0, HERE)
 from rustfun_parse import FileIndex, Untranslatable  # noqa: E402
 from rustfun_tr import Translator  # noqa: E402
 
-FILES = ["src/bytes.rs", "src/raw/mod.rs", "src/raw/crc32.rs", "src/raw/node.rs"]
+FILES = ["src/bytes.rs", "src/raw/mod.rs", "src/raw/crc32.rs", "src/raw/node.rs", "src/automaton/mod.rs", "src/raw/ops.rs"]
 PINNED_PATH = os.path.join(HERE, "srcfuns_pinned.v")
+LAST_DECLS = {}
 
 ANY_POS = [("start", "node.start", "usize"), ("v", "self.0", "u8"), ("sizes", "node.sizes", "PackSizes"),
            ("ntrans", "node.ntrans", "usize"), ("version", "node.version", "u64")]
@@ -46,6 +47,11 @@ FST_NEW = [("len", "bytes.len()", "usize"), ("version", "version", "u64"), ("roo
 # (coq name, file, owner, fn, mode, declared parameters or None, result is an option, declared result type)
 TARGETS = [
     ("src_fn_pack_size", "src/bytes.rs", None, "pack_size", ("fn",), None, False, None),
+    ("src_fn_unpack_uint", "src/bytes.rs", None, "unpack_uint", ("fn",), None, False, None),
+    ("src_fn_pack_uint_in_bytes", "src/bytes.rs", None, "pack_uint_in", ("arg", "write_all"), None, False, ("bytes",)),
+    ("src_fn_Bound_exceeded_by", "src/raw/mod.rs", "Bound", "exceeded_by", ("fn",), None, False, None),
+    ("src_fn_Bound_is_empty", "src/raw/mod.rs", "Bound", "is_empty", ("fn",), None, False, None),
+    ("src_fn_Bound_is_inclusive", "src/raw/mod.rs", "Bound", "is_inclusive", ("fn",), None, False, None),
     ("src_fn_Output_prefix", "src/raw/mod.rs", "Output", "prefix", ("fn",), None, False, None),
     ("src_fn_Output_cat", "src/raw/mod.rs", "Output", "cat", ("fn",), None, False, None),
     ("src_fn_Output_sub", "src/raw/mod.rs", "Output", "sub", ("fn",), None, False, None),
@@ -99,6 +105,17 @@ TARGETS = [
     ("src_fn_StateAnyTrans_input_at", "src/raw/node.rs", "StateAnyTrans", "input", ("let", "at"), ANY_POS + [("i", "i", "usize")], False, "usize"),
     ("src_fn_StateAnyTrans_find_input_start", "src/raw/node.rs", "StateAnyTrans", "find_input", ("let", "start"), ANY_POS, False, "usize"),
     ("src_fn_StateAnyTrans_output_at", "src/raw/node.rs", "StateAnyTrans", "output", ("let", "at"), ANY_POS + [("i", "i", "usize")], True, "usize"),
+] + [
+    ("src_fn_%s_%s" % (o, f), "src/automaton/mod.rs", o, f, ("fn",), None, False, None)
+    for o, fs in (("Str", "start is_match can_match accept"), ("Subsequence", "start is_match can_match will_always_match accept"),
+                  ("AlwaysMatch", "start is_match can_match will_always_match accept"),
+                  ("StartsWith", "start is_match can_match will_always_match accept"),
+                  ("Union", "start is_match can_match will_always_match accept"),
+                  ("Intersection", "start is_match can_match will_always_match accept"),
+                  ("Complement", "start is_match can_match will_always_match accept"),
+                  ("Ref", "start is_match can_match will_always_match accept"))
+    for f in fs.split()
+] + [
     # Fst::new: the conditions of its four rejecting `if`s
     ("src_fn_Fst_new_too_short", "src/raw/mod.rs", "Fst", "new", ("cond", 1), FST_NEW, False, "bool"),
     ("src_fn_Fst_new_bad_version", "src/raw/mod.rs", "Fst", "new", ("cond", 2), FST_NEW, False, "bool"),
@@ -130,6 +147,11 @@ def split_pinned(txt):
         out[m.group(1)] = (m.group(3), m.group(0).rstrip("\n"))
         order.append(m.group(1))
     return out, order
+
+
+def split_pinned_decls(txt):
+    """pinned file -> {inductive name: declaration text}"""
+    return {m.group(1): m.group(0).rstrip("\n") for m in re.finditer(r"^Inductive (src_\w+)[^\n]*\n(?:  \|[^\n]*\n?)+", txt, re.M)}
 
 
 def deps_of(text, names):
@@ -190,6 +212,39 @@ def generate(repo, root, use_pinned_for=(), pin=False):
             status[n] = status.get(n, "fallback_to_pinned: not reached in the current source")
             if not status[n].startswith("fallback"):
                 status[n] = "fallback_to_pinned: " + status[n]
+    # enums: the declarations of the pinned revision are always present; when the source's enum differs from the
+    # pinned one, every function that mentions it falls back (pinned and current constructors cannot be mixed)
+    pdecls = {} if pin or not os.path.exists(PINNED_PATH) else split_pinned_decls(open(PINNED_PATH).read())
+    cdecls = {}
+    for d in tr.enum_decls():
+        cdecls[re.match(r"Inductive (src_\w+)", d).group(1)] = d
+    decls = dict(cdecls)
+    for dn, dt in pdecls.items():
+        if dn in cdecls and cdecls[dn].strip() != dt.strip():
+            for n in list(texts):
+                if re.search(r"\b%s\b" % dn, texts[n]):
+                    if n in pinned:
+                        texts[n], types[n] = pinned[n][1], pinned[n][0]
+                        status[n] = "fallback_to_pinned: the enum %s of the source differs from the pinned one" % dn[4:]
+                    else:
+                        del texts[n]
+                        status.pop(n, None)
+        decls[dn] = dt if (dn not in cdecls or cdecls[dn].strip() != dt.strip()) else cdecls[dn]
+    # a kept function must not refer to a dropped helper
+    changed_ = True
+    while changed_:
+        changed_ = False
+        for n in list(texts):
+            for ref in set(re.findall(r"\bsrc_fn_\w+", texts[n].split(":=", 1)[1])):
+                if ref not in texts and ref not in pinned:
+                    if n in pinned and texts[n] != pinned[n][1]:
+                        texts[n], types[n] = pinned[n][1], pinned[n][0]
+                        status[n] = "fallback_to_pinned: calls %s, which is not available" % ref
+                    else:
+                        del texts[n]
+                        status.pop(n, None)
+                    changed_ = True
+                    break
     missing = [n for n in status if status[n].startswith("fallback") and n not in texts]
     if missing:
         raise SystemExit("rustfun: no translation and no pinned text for: " + "; ".join("%s (%s)" % (n, status[n]) for n in missing))
@@ -216,7 +271,13 @@ def generate(repo, root, use_pinned_for=(), pin=False):
             "   " + ("`+ - *` that can leave their type, division by a possible zero and over-long shifts return Panic;" if ovf
                      else "`+ - *` wrap modulo 2^bits of the operand type;"),
             "   usize and u64 are 64 bit; `as` to a narrower type truncates; results that cannot panic are plain N / bool / option N. *)",
-            "From Coq Require Import NArith List Bool.", "Require Import FstV.Base FstV.Generated.SrcParams.", "Open Scope N_scope.", ""]
+            "From Coq Require Import NArith List Bool.", "Require Import FstV.Base FstV.SrcFunBase FstV.Generated.SrcParams.", "Open Scope N_scope.", "",
+            "(* ranges, enumerate, option equality and the record of a component automaton come from SrcFunBase.v *)", ""]
+    global LAST_DECLS
+    LAST_DECLS = decls
+    for dn in sorted(decls):
+        head.append(decls[dn])
+        head.append("")
     body = []
     for n in order:
         body.append("(* %s *)" % status.get(n, "translated").replace("(*", "( *").replace("*)", "* )"))
@@ -249,7 +310,7 @@ def main():
             sys.exit(1)
         open(PINNED_PATH, "w").write("(* pinned translation of the pinned revision of /repo (tools/rustfun.py --pin); fragments per function,\n"
                                      "   used as fallback text when a function cannot be located or translated *)\n\n" +
-                                     "\n\n".join(texts[n] for n in order) + "\n")
+                                     "\n\n".join([LAST_DECLS[dn] for dn in sorted(LAST_DECLS)] + [texts[n] for n in order]) + "\n")
     os.makedirs(os.path.dirname(out), exist_ok=True)
     if not os.path.exists(out) or open(out).read() != txt:
         open(out, "w").write(txt)
